@@ -35,6 +35,10 @@ func main() {
 			os.Exit(code)
 		}
 		os.Exit(mk().Execute(tier))
+	case "c01worker":
+		os.Exit(scen.C01Worker(scen.Tier(os.Args[2]), os.Args[3]))
+	case "c01replay":
+		os.Exit(scen.C01Replay(os.Args[2], os.Args[3], os.Args[4]))
 	case "path":
 		scen.DebugPath(os.Args[2], os.Args[3], os.Args[4:])
 	case "replay":
